@@ -635,7 +635,28 @@ evaluate() const {
           return Result(r1.as_boolean());
 
         } else if (stype->_type == CPPSimpleType::T_int) {
-          return Result(r1.as_integer());
+          // Honour the width and signedness of the target type.
+          int value = r1.as_integer();
+          if (stype->_flags & CPPSimpleType::F_short) {
+            if (stype->_flags & CPPSimpleType::F_unsigned) {
+              value = (int)(unsigned short)value;
+            } else {
+              value = (int)(short)value;
+            }
+          } else if ((stype->_flags & CPPSimpleType::F_unsigned) && value < 0) {
+            // The result does not fit in the int we compute with.
+            return Result();
+          }
+          return Result(value);
+
+        } else if (stype->_type == CPPSimpleType::T_char) {
+          int value = r1.as_integer();
+          if (stype->_flags & CPPSimpleType::F_unsigned) {
+            value = (int)(unsigned char)value;
+          } else {
+            value = (int)(signed char)value;
+          }
+          return Result(value);
 
         } else if (stype->_type == CPPSimpleType::T_float ||
                    stype->_type == CPPSimpleType::T_double) {
@@ -726,13 +747,13 @@ evaluate() const {
       // the second one *and* that comes out to be true.
       if (_u._op._operator == OROR && r2._type == RT_integer &&
           r2.as_boolean()) {
-        return r2;
+        return Result(1);
       }
 
       // Ditto for the operator being && and the second one coming out false.
       if (_u._op._operator == ANDAND && r2._type == RT_integer &&
           !r2.as_boolean()) {
-        return r2;
+        return Result(0);
       }
 
       // Also for the operator being [] and the operand being a string.
@@ -814,21 +835,29 @@ evaluate() const {
     case '|':
       return Result(r1.as_integer() | r2.as_integer());
 
+    case '^':
+      return Result(r1.as_integer() ^ r2.as_integer());
+
     case '&':
       return Result(r1.as_integer() & r2.as_integer());
 
     case OROR:
+      // The result of || and && is a bool, not one of the operands.
       if (r1.as_boolean()) {
-        return r1;
-      } else {
+        return Result(1);
+      } else if (r2._type == RT_error) {
         return r2;
+      } else {
+        return Result((int)r2.as_boolean());
       }
 
     case ANDAND:
-      if (r1.as_boolean()) {
+      if (!r1.as_boolean()) {
+        return Result(0);
+      } else if (r2._type == RT_error) {
         return r2;
       } else {
-        return r1;
+        return Result((int)r2.as_boolean());
       }
 
     case EQCOMPARE:
